@@ -79,6 +79,81 @@ def make_ess(N):
                       bounds=f"N={N} non-negative weights with positive sum, symbolic scale k>0", theory="QF_NRA")
 
 
+def make_ess_rounding(N, kind="bounds"):
+    """effective_sample_size in the round-off model of binary64 (vf.engine.rnd): weights of any magnitude in [1e-300, 1e300]
+    (or exactly 0), i.e. the dynamic range named by the property; the result must be finite and inside [1, N] up to 1e-9."""
+    from vf.engine.rnd import SymRnd, FloatNonFinite, rnd_array
+    LO, HI = Fraction(1, 10 ** 300), Fraction(10 ** 300)
+    EPS = Fraction(1, 10 ** 9)
+
+    def weights(ctx, tag="w"):
+        w = reals(ctx, tag, N, lo=0, hi=HI)
+        for x in w:
+            ctx.assume(z3.Or(x.term() == 0, x.term() >= _rvq(LO)))
+        ctx.assume(_sum(w).n > 0)
+        return w
+
+    def harness(ctx: PathCtx):
+        if kind == "uniform":
+            c = real(ctx, "c", lo=LO, hi=HI)
+            w = [c for _ in range(N)]
+        else:
+            w = weights(ctx)
+        try:
+            e = scalar(tools.effective_sample_size(rnd_array(w, (0, HI))))
+        except FloatNonFinite as ex:
+            ctx.fail("ess-is-finite", str(ex))
+            return None
+        ctx.ok("ess-is-finite")
+        e = SymRnd.lift(e).v
+        ctx.check("ess>=1(1-1e-9)", le(1 - EPS, e))
+        ctx.check("ess<=N(1+1e-9)", le(e, N * (1 + EPS)))
+        if kind == "uniform":
+            ctx.check("uniform-gives-N(1+-1e-9)", z3.And(le(N * (1 - EPS), e), le(e, N * (1 + EPS))))
+        if kind == "rescale":
+            k = real(ctx, "k", lo=Fraction(1, 10 ** 150), hi=Fraction(10 ** 150))
+            w2 = [k * x for x in w]
+            for x in w2:
+                ctx.assume(z3.Or(x.term() == 0, z3.And(x.term() >= _rvq(LO), x.term() <= _rvq(HI))))
+            try:
+                e2 = SymRnd.lift(scalar(tools.effective_sample_size(rnd_array(w2, (0, HI))))).v
+            except FloatNonFinite as ex:
+                ctx.fail("ess-is-finite", "rescaled weights: " + str(ex))
+                return None
+            ctx.check("rescaling-changes-ess-by<=1e-9-relative", z3.And(le(e2, e * (1 + EPS)), le(e * (1 - EPS), e2)))
+        return None
+
+    def replay(m, label, v):
+        base = np.array([float(m.get(f"w{i}", m.get("c", 1.0))) for i in range(N)])
+        if not np.all(np.isfinite(base)) or base.sum() <= 0:
+            base = np.ones(N)
+        cands = [base] + [base / base.max() * sc for sc in (1e-300, 1e-250, 1e-170, 1e-155, 1e155, 1e170, 1e250, 1e300)] + \
+                [np.full(N, sc) for sc in (1e-250, 1e-170, 1.0, 1e170, 1e250)]
+        worst = None
+        for w in cands:
+            w = np.where((w > 0) & (w < 1e-300), 0.0, np.minimum(w, 1e300))
+            if w.sum() <= 0:
+                continue
+            with np.errstate(all="ignore"):
+                e = float(tools.effective_sample_size(w.copy()))
+                ref = float(tools.effective_sample_size(w / w.max()))
+            bad = (not math.isfinite(e)) or e < 1 - 1e-9 or e > N * (1 + 1e-9) or abs(e - ref) > 1e-9 * ref
+            if bad and worst is None:
+                worst = (w.tolist(), e, ref)
+        return {"reproduced": worst is not None, "signature": "effective_sample_size:magnitude", "payload": {"weights": worst[0] if worst else None, "ess": worst[1] if worst else None},
+                "what": (f"effective_sample_size({worst[0]}) = {worst[1]} (the same weights rescaled to max 1 give {worst[2]}): not finite / outside [1, N] / not "
+                         f"scale invariant" if worst else "model weights and their rescalings give a finite, invariant ESS")}
+
+    return Obligation(f"ess-roundoff-{kind}-N{N}", harness, replay=replay, encodes=[tools.effective_sample_size],
+                      bounds=f"N={N} weights, each 0 or in [1e-300, 1e300], positive sum" + ("; rescaling factor in [1e-150, 1e150] keeping the weights in range" if kind == "rescale" else ""),
+                      stubs=["binary64 + - * / -> standard round-off model with gradual underflow and sign preservation (sound over-approximation); "
+                             "overflow / division by zero end the path as non-finite"], theory="QF_NRA", timeout_ms=120000)
+
+
+def _rvq(fr):
+    return z3.RealVal(str(fr.numerator)) / z3.RealVal(str(fr.denominator)) if fr.denominator != 1 else z3.RealVal(str(fr.numerator))
+
+
 def make_compute_ess(N, D=1):
     def harness(ctx: PathCtx):
         lw = [LogVal.atom(f"lw{i}", D) for i in range(N)]
@@ -305,7 +380,7 @@ def make_vv(d, n, kind, wgrid=None, Agrid=None):
 
 
 def obligations(tier):
-    obs = [make_ess(2), make_ess(3), make_compute_ess(2), make_compute_ess(3),
+    obs = [make_ess(2), make_ess(3), make_ess_rounding(2), make_ess_rounding(2, "uniform"), make_compute_ess(2), make_compute_ess(3),
            make_trim(2, 2, "9/10"), make_trim(3, 3, "9/10"), make_trim(3, 2, "1/2"),
            make_vv(1, 2, "nonneg"), make_vv(1, 2, "affine"), make_vv(1, 2, "wscale"),
            make_vv(1, 3, "affine", wgrid=(1, 1, 1)), make_vv(1, 3, "affine", wgrid=(1, 2, 5)), make_vv(1, 3, "wscale", wgrid=(3, 1, 2))]
